@@ -815,6 +815,7 @@ Error Assembler::_emit(InstId inst_id, const Operand_& o0, const Operand_& o1, c
 
   if (ASMJIT_UNLIKELY(Support::test(options, kRequiresSpecialHandling))) {
     if (ASMJIT_UNLIKELY(!_code)) {
+      reset_state();
       return report_error(make_error(Error::kNotInitialized));
     }
 
